@@ -6,7 +6,8 @@ From Coq Require Import ZArith QArith Qabs List Bool Lia.
 From FV Require Import Common.ListX Common.PySem Common.Chunk.
 From FV Require gen.Gen_ds_shakespeare gen.Gen_md_shakespeare gen.Gen_ds_stackoverflow gen.Gen_md_stackoverflow
   gen.Gen_ds_cifar100 gen.Gen_ds_emnist gen.Gen_tasks gen.Gen_md_cifar100 gen.Gen_ds_cifar100_defaults
-  gen.Gen_ds_shakespeare_defaults.
+  gen.Gen_ds_shakespeare_defaults gen.Gen_md_shakespeare_loss gen.Gen_md_stackoverflow_loss.
+From FV Require Import Common.QRow.
 Import ListNotations.
 Local Open Scope Z_scope.
 
@@ -159,6 +160,23 @@ Definition std_agree (N S1 S2 : Z) (s : Q) (samples : list (Z * Q)) : bool :=
                      Qle_bool (Qabs (snd vo * s - d)) ((1 # 10000) * Qabs d + (1 # 1000))) samples.
 Local Close Scope Q_scope.
 
+(* ---------- per-example training loss of the packaged language models ---------- *)
+(* a row = (per-token cross entropies, targets); per_token_loss *= targets != pad, then the
+   translated row-wise tail (Gen_md_*_loss).  The batch loss is the row loss of every row. *)
+Fixpoint mask_row (pad : Z) (ls : list Q) (ys : list Z) : list Q :=
+  match ls, ys with
+  | l :: lr, y :: yr => (if y =? pad then 0%Q else l) :: mask_row pad lr yr
+  | _, _ => []
+  end.
+Definition lm_row_loss (tail : option Q -> list Q -> Q) (pad : Z) (el : option Q) (r : list Q * list Z) : Q :=
+  tail el (mask_row pad (fst r) (snd r)).
+Definition lm_batch_loss (tail : option Q -> list Q -> Q) (pad : Z) (el : option Q) (rows : list (list Q * list Z)) : list Q :=
+  map (lm_row_loss tail pad el) rows.
+Definition sh_batch_loss := lm_batch_loss Gen_md_shakespeare_loss.sh_train_loss_row (SHM.sh_train_loss_masked SHM.sh_default_vocab_size).
+Definition so_batch_loss := lm_batch_loss Gen_md_stackoverflow_loss.so_train_loss_row (SOM.so_train_loss_masked SOM.so_default_vocab_size).
+
+Definition q_close (a b : Q) : bool := Qle_bool (Qabs (a - b)) ((1 # 10000) * (1 + Qabs b))%Q.
+
 (* ---------- correspondence ---------- *)
 Inductive C20_case :=
 | KShake (snips : list (list Z)) (L : Z)
@@ -168,7 +186,8 @@ Inductive C20_case :=
 | KRandom (ch cw uh uw : Z)
 | KPlain (i j : Z)
 | KStd (N S1 S2 : Z) (s : Q)
-| KDomain (id : list Z).
+| KDomain (id : list Z)
+| KLoss (shakespeare : bool) (el : option Q) (rows : list (list Q * list Z)).
 
 Inductive C20_obs :=
 | ORaise
@@ -176,7 +195,8 @@ Inductive C20_obs :=
 | OConsts (pad bos eos oov vocab : Z) (table : list Z)
 | OWindow (h w : Z * Z)                           (* observed [lo, hi) of the rows / columns kept *)
 | OStd (samples : list (Z * Q))
-| OId (d : Z).
+| OId (d : Z)
+| OLoss (per_row : list Q).
 
 Definition lz_eqb := list_beq Z.eqb.
 Definition llz_eqb := list_beq lz_eqb.
@@ -201,6 +221,8 @@ Definition C20_agree (c : C20_case) (o : C20_obs) : bool :=
   | KPlain i j, OWindow h w => win_eqb (plain_window i j) (h, w)
   | KStd N S1 S2 s, OStd samples => std_agree N S1 S2 s samples
   | KDomain id, OId d => match EM.domain_id id with Some m => m =? d | None => false end
+  | KLoss sh el rows, OLoss vals =>
+      all2 q_close vals (if sh then sh_batch_loss el rows else so_batch_loss el rows)
   | KDomain id, ORaise => match EM.domain_id id with None => true | Some _ => false end
   | _, _ => false
   end.
